@@ -4,7 +4,8 @@ namespace IpcHub.Pull
 /-- the pull-client facts of the current source tree (regenerated on every check) -/
 def genFacts : Facts :=
   { handshakeDeadline := IpcHub.Gen.handshakeDeadline, formatGuard := IpcHub.Gen.formatGuard,
-    setupUrlSafe := IpcHub.Gen.setupUrlSafe, openRecovers := IpcHub.Gen.openRecovers }
+    setupUrlSafe := IpcHub.Gen.setupUrlSafe, openRecovers := IpcHub.Gen.openRecovers,
+    streamAfterPlay := IpcHub.Gen.streamAfterPlay }
 /-- what the property needs -/
-def goodFacts : Facts := { handshakeDeadline := true, formatGuard := true, setupUrlSafe := true, openRecovers := true }
+def goodFacts : Facts := { handshakeDeadline := true, formatGuard := true, setupUrlSafe := true, openRecovers := true, streamAfterPlay := true }
 end IpcHub.Pull
